@@ -130,9 +130,16 @@ func runC14(r *Run) {
 	fix := r.Fn("(*trillian/ctfe.indirectIssuanceChainService).FixLogLeaf")
 	if fix != nil {
 		r.Rule("C14.R3")
-		r.ErrorsGate(fix, "FixLogLeaf:errors", "(*trillian/ctfe.indirectIssuanceChainService).getByHash", 2)
-		r.ErrorsGate(fix, "FixLogLeaf:errors", "asn1.Unmarshal", 2)
-		r.ErrorsGate(fix, "FixLogLeaf:errors", "tls.Marshal", 2)
+		// an error of the lookup, of the chain's decoding and of the re-encoding is FixLogLeaf's verdict and
+		// leaves the leaf as it was — decided on the value each return yields on the path that leads to it,
+		// whatever expression carries the verdict (rules_t6c14.go)
+		var leafWrites []ssa.Instruction
+		for _, st := range r.StoresTo(fix, "&(p2.ExtraData)") {
+			leafWrites = append(leafWrites, st)
+		}
+		c14ErrGate(r, fix, "FixLogLeaf:errors", "(*trillian/ctfe.indirectIssuanceChainService).getByHash", 2, leafWrites)
+		c14ErrGate(r, fix, "FixLogLeaf:errors", "asn1.Unmarshal", 2, leafWrites)
+		c14ErrGate(r, fix, "FixLogLeaf:errors", "tls.Marshal", 2, leafWrites)
 		for _, c := range CallsTo(fix, "asn1.Unmarshal") {
 			rest := CallResult(c, 0)
 			if rest == nil {
@@ -188,6 +195,9 @@ func runC14(r *Run) {
 		// TLS encoding of a T" — tls.Unmarshal in place, or a predicate helper verified to answer exactly
 		// that (c14Probes); the layout is named by the type decoded into, not by the local that receives it
 		probes := c14Probes(r, fix, "FixLogLeaf")
+		// a layout is taken only on an exact match, and every layout gets its turn (rules_t6c14.go)
+		c14LayoutExact(r, fix, probes, stores)
+		c14LayoutAsked(r, fix, probes)
 		for _, full := range []string{"ct.PrecertChainEntry", "ct.CertificateChain"} {
 			for _, p := range probes {
 				if p.typ != full {
@@ -404,6 +414,7 @@ func runC14(r *Run) {
 		}
 		r.Check("layout:"+w.typ+"."+w.field, ok, "-", fmt.Sprintf("tag %q (expected %q)", got, w.tag))
 	}
+	c14Debug(r)
 }
 
 // c14Who (C14.R1): who talks to the backend for entries.  Facts decided, per entry-serving RPC:
